@@ -275,7 +275,7 @@ func genBound0(c *ctx, terms []string) (sx.V, []byte, string) {
 }
 
 func checkC08(c *ctx) {
-	c.Rule = "dictionaries over terms from {a,b,c}* (prefix families, near neighbours, the empty term) plus the generic vocabulary, on built / persisted+opened / merged / re-merged segments whose merges mix single-hit and general entries; automata {match-all, never, exact, prefix, Levenshtein 1-2, random regular expressions over a subset (literal . concatenation | *)} x key ranges (either bound absent; bounds equal to / between / below / above existing terms; start < end); observed: the (term, count) sequence of AutomatonIterator, Contains, Cardinality, empty result for fields without dictionary; expected: extracted DictionaryIterator model (reused scratch list) run over the dictionary the extracted parser reads from the segment's own bytes, with extracted Gallina matchers; plus one segment of 131136 documents (offsets beyond 2 MiB, a bitmap over three containers and larger than 16 KiB; expected counts by construction); non-trivial = dictionary with >= 3 terms and a non-trivial automaton or range"
+	c.Rule = "dictionaries over terms from {a,b,c}* (prefix families, near neighbours, the empty term) plus the generic vocabulary, on built / persisted+opened / merged / re-merged segments whose merges mix single-hit and general entries; automata {match-all, never, exact, prefix, Levenshtein 1-2, random regular expressions over a subset (literal . concatenation | *)} x key ranges (either bound absent; bounds equal to / between / below / above existing terms; start < end; the empty non-nil end key on dictionaries without the empty term); observed: the (term, count) sequence of AutomatonIterator, Contains, Cardinality, empty result for fields without dictionary; expected: extracted DictionaryIterator model (reused scratch list) run over the dictionary the extracted parser reads from the segment's own bytes, with extracted Gallina matchers; plus one segment of 131136 documents (offsets beyond 2 MiB, a bitmap over three containers and larger than 16 KiB; expected counts by construction); non-trivial = dictionary with >= 3 terms and a non-trivial automaton or range"
 	c.Assumptions = append(c.Assumptions, "vellum's FST.Search is abstracted as an ordered filter by (automaton accepts, start <= key < end); the Gallina matchers are the specification of the automata built on the Go side",
 		"Levenshtein / regexp automata are exercised on ASCII terms (vellum's automata work on UTF-8 code points, the model on bytes)")
 	if bad := boundaryChain(c); bad != "" {
